@@ -106,6 +106,9 @@ impl<Error: Send + 'static> DecodeScheduler<Error> {
 					crate::verif_hooks::yield_point("decoder.loop.before_error_push");
 					self.error_producer.push(error).ok();
 					self.shared.encountered_error.store(true, Ordering::SeqCst);
+					// the sound stops because of the error, so don't call the
+					// decoder again
+					break;
 				}
 			}
 		});
